@@ -159,12 +159,25 @@ class Recorders:
         return False
 
 
-def call_api(op, path, fmt):
-    """Run the public API function; return ('module', name) | ('error', type name, message)."""
+def call_api(op, path, fmt, source="list", pulled=None):
+    """Run the public API function; return ('module', name) | ('error', type name, message).
+    source (dump_many only): the frames as a list, an empty list, a generator (pulls are appended to `pulled`) or the lazy
+    result of load_many on a file that does not exist."""
     import iodata
     from iodata import IOData
 
+    def lazy():
+        for k in range(3):
+            pulled.append(k)
+            yield IOData()
+
     try:
+        if op == "dump_many" and source != "list":
+            frames = {"src-empty": lambda: [], "src-lazy": lazy,
+                      "src-loadmany-missing": lambda: iodata.load_many(os.path.join(os.path.dirname(os.path.abspath(path)),
+                                                                                    "no_such_input.xyz"))}[source]()
+            iodata.dump_many(frames, path, fmt=fmt)
+            return ("returned",)
         if op == "load_one":
             iodata.load_one(path, fmt=fmt)
         elif op == "load_many":
@@ -219,6 +232,10 @@ def case_select(case):
                         # the base name GIVEN decides, also when it is a symbolic link to a file with another name
                         variants.append(("link-out", "abs", os.path.join(root, name)))
                         variants.append(("link-in", "abs", os.path.join(root, name)))
+                        if op == "dump_many" and not want:
+                            # the refusal must not depend on the frames: none at all, produced lazily, or read lazily from a file
+                            for source in ("src-empty", "src-lazy", "src-loadmany-missing"):
+                                variants.append((source, "abs", os.path.join(root, name)))
                         for exists, where, path in variants:
                             base = other if where == "relative" else None
                             if base:
@@ -233,11 +250,17 @@ def case_select(case):
                                         fh.write("sentinel\n")
                                     os.symlink(tgt, full)
                                     counters["symlink_selections"] = counters.get("symlink_selections", 0) + 1
-                                elif exists:
+                                elif exists is True:
                                     with open(full, "w") as fh:
                                         fh.write("sentinel\n")
+                                pulled = []
                                 with audit.Watch(root) as w:
-                                    res = call_api(op, path, fmt)
+                                    res = call_api(op, path, fmt, exists if str(exists).startswith("src-") else "list", pulled)
+                                if str(exists).startswith("src-"):
+                                    counters["refusals_with_odd_sources"] = counters.get("refusals_with_odd_sources", 0) + 1
+                                    if pulled:
+                                        viols.append(_v("select-after-data", f"{op}({name!r}, fmt={fmt!r}): {len(pulled)} frame(s) pulled from the "
+                                                        f"iterable although no format can be selected ({res[:2]})"))
                                 counters["selections"] += 1
                                 counters["audit_events_total"] += len(w.events)
                                 observed.append(res[:2])
@@ -247,9 +270,9 @@ def case_select(case):
                                         counters["audit_events_on_refusal"] += len(w.events)
                                         viols.append(_v("select-touches-fs", f"{op}({name!r}, fmt={fmt!r}) raised FileFormatError after "
                                                         f"file-system events {w.events[:3]}"))
-                                    if exists and audit.file_state(full)[1] != audit.file_state_of_bytes(b"sentinel\n"):
+                                    if exists in (True, "link-out", "link-in") and audit.file_state(full)[1] != audit.file_state_of_bytes(b"sentinel\n"):
                                         viols.append(_v("select-touches-fs", f"{op}({name!r}, fmt={fmt!r}): existing file modified on refusal"))
-                                    if not exists and os.path.exists(full):
+                                    if (not exists or str(exists).startswith("src-")) and os.path.exists(full):
                                         viols.append(_v("select-touches-fs", f"{op}({name!r}, fmt={fmt!r}): file created on refusal"))
                                     if os.path.basename(name) not in res[2]:
                                         # observation only: the statement of C17 does not prescribe the wording
